@@ -240,7 +240,10 @@ def decode(input, errors="strict", encoding=None, force=True):
 def encode(input, errors="strict", encoding=None):
     consumed = len(input)
     if encoding is None:
+        # an unterminated @charset rule is no rule: default to UTF-8
         encoding = detectencoding_unicode(input, True)[0]
+        if encoding is None:
+            encoding = "utf-8"
         if encoding.replace("_", "-").lower() == "utf-8-sig":
             input = _fixencoding(input, "utf-8", True)
     else:
@@ -405,6 +408,9 @@ class IncrementalEncoder(codecs.IncrementalEncoder):
             else:
                 # Use encoding from the @charset declaration
                 self.encoding = detectencoding_unicode(input, final)[0]
+                if self.encoding is None and final:
+                    # an unterminated @charset rule is no rule: default to UTF-8
+                    self.encoding = "utf-8"
             if self.encoding is not None:
                 if self.encoding == "css":
                     raise ValueError("css not allowed as encoding name")
